@@ -277,50 +277,49 @@ Definition read_tag (rest : bytes) : res (N * N * bytes) :=
   else if bad_field fnum then Err PWire
   else Ok (fnum, wt, r1).
 
-(* Group.Unmarshal *)
-Fixpoint group_fields (fuel : nat) (l : N) (g : group) (rest : bytes) : res group :=
+(* The loop shared by every generated Unmarshal:  for iNdEx < l { one field }.
+   [step l x rest] handles the field at the head of [rest] (the buffer has length l, so
+   iNdEx = l - len rest) and returns the updated receiver and the bytes after the field.
+   Every field occupies at least one byte, so fuel = S (length buffer) is never exhausted. *)
+Fixpoint fields_loop {X : Type} (step : N -> X -> bytes -> res (X * bytes))
+         (fuel : nat) (l : N) (x : X) (rest : bytes) : res X :=
   match rest with
-  | [] => Ok g
+  | [] => Ok x
   | _ :: _ =>
     match fuel with
     | O => Err PFuel
-    | S f =>
-      do '(fnum, wt, r1) <- read_tag rest ;
-      match fnum with
-      | 1 => do '(v, r2) <- vread wt r1 ; group_fields f l (set_g_node v g) r2
-      | 2 => do '(d, r2) <- bread wt l r1 ; group_fields f l (set_g_name d g) r2
-      | 3 => do '(v, r2) <- vread wt r1 ; group_fields f l (set_g_gid v g) r2
-      | 4 => do '(v, r2) <- vread wt r1 ; group_fields f l (set_g_rid v g) r2
-      | _ => do r2 <- skip_field l rest ; group_fields f l g r2
-      end
+    | S f => do '(x', r2) <- step l x rest ; fields_loop step f l x' r2
     end
   end.
-Definition group_unmarshal_into (g : group) (bs : bytes) : res group :=
-  group_fields (S (length bs)) (len bs) g bs.
+Definition unmarshal_with {X : Type} (step : N -> X -> bytes -> res (X * bytes)) (x : X) (bs : bytes) : res X :=
+  fields_loop step (S (length bs)) (len bs) x bs.
+
+(* Group.Unmarshal *)
+Definition group_step (l : N) (g : group) (rest : bytes) : res (group * bytes) :=
+  do '(fnum, wt, r1) <- read_tag rest ;
+  match fnum with
+  | 1 => do '(v, r2) <- vread wt r1 ; Ok (set_g_node v g, r2)
+  | 2 => do '(d, r2) <- bread wt l r1 ; Ok (set_g_name d g, r2)
+  | 3 => do '(v, r2) <- vread wt r1 ; Ok (set_g_gid v g, r2)
+  | 4 => do '(v, r2) <- vread wt r1 ; Ok (set_g_rid v g, r2)
+  | _ => do r2 <- skip_field l rest ; Ok (g, r2)
+  end.
+Definition group_unmarshal_into : group -> bytes -> res group := unmarshal_with group_step.
 
 (* Entry.Unmarshal *)
-Fixpoint entry_fields (fuel : nat) (l : N) (e : entry) (rest : bytes) : res entry :=
-  match rest with
-  | [] => Ok e
-  | _ :: _ =>
-    match fuel with
-    | O => Err PFuel
-    | S f =>
-      do '(fnum, wt, r1) <- read_tag rest ;
-      match fnum with
-      | 1 => do '(v, r2) <- vread wt r1 ; entry_fields f l (set_e_type (low32 v) e) r2
-      | 2 => do '(v, r2) <- vread wt r1 ; entry_fields f l (set_e_term v e) r2
-      | 3 => do '(v, r2) <- vread wt r1 ; entry_fields f l (set_e_index v e) r2
-      | 4 => do '(d, r2) <- bread wt l r1 ; entry_fields f l (set_e_data (Some d) e) r2
-      | 5 => do '(v, r2) <- vread wt r1 ; entry_fields f l (set_e_id v e) r2
-      | 6 => do '(v, r2) <- vread wt r1 ; entry_fields f l (set_e_dtype (low32 v) e) r2
-      | 7 => do '(v, r2) <- vread wt r1 ; entry_fields f l (set_e_ts v e) r2
-      | _ => do r2 <- skip_field l rest ; entry_fields f l e r2
-      end
-    end
+Definition entry_step (l : N) (e : entry) (rest : bytes) : res (entry * bytes) :=
+  do '(fnum, wt, r1) <- read_tag rest ;
+  match fnum with
+  | 1 => do '(v, r2) <- vread wt r1 ; Ok (set_e_type (low32 v) e, r2)
+  | 2 => do '(v, r2) <- vread wt r1 ; Ok (set_e_term v e, r2)
+  | 3 => do '(v, r2) <- vread wt r1 ; Ok (set_e_index v e, r2)
+  | 4 => do '(d, r2) <- bread wt l r1 ; Ok (set_e_data (Some d) e, r2)
+  | 5 => do '(v, r2) <- vread wt r1 ; Ok (set_e_id v e, r2)
+  | 6 => do '(v, r2) <- vread wt r1 ; Ok (set_e_dtype (low32 v) e, r2)
+  | 7 => do '(v, r2) <- vread wt r1 ; Ok (set_e_ts v e, r2)
+  | _ => do r2 <- skip_field l rest ; Ok (e, r2)
   end.
-Definition entry_unmarshal_into (e : entry) (bs : bytes) : res entry :=
-  entry_fields (S (length bs)) (len bs) e bs.
+Definition entry_unmarshal_into : entry -> bytes -> res entry := unmarshal_with entry_step.
 
 (* packed repeated uint64 (ConfState.Nodes / Learners, wire type 2):
      for iNdEx < postIndex { v := varint read with the bound l of the WHOLE buffer; append }
@@ -339,111 +338,92 @@ Definition nums_read (wt l : N) (acc : list N) (r1 : bytes) : res (list N * byte
   else Err PWire.
 
 (* ConfState.Unmarshal *)
-Fixpoint conf_fields (fuel : nat) (l : N) (c : confstate) (rest : bytes) : res confstate :=
-  match rest with
-  | [] => Ok c
-  | _ :: _ =>
-    match fuel with
-    | O => Err PFuel
-    | S f =>
-      do '(fnum, wt, r1) <- read_tag rest ;
-      match fnum with
-      | 1 => do '(ns, r2) <- nums_read wt l (c_nodes c) r1 ; conf_fields f l (set_c_nodes ns c) r2
-      | 2 => do '(d, r2) <- bread wt l r1 ;
-             do g <- group_unmarshal_into group0 d ;
-             conf_fields f l (set_c_groups (c_groups c ++ [g]) c) r2
-      | 3 => do '(ns, r2) <- nums_read wt l (c_learners c) r1 ; conf_fields f l (set_c_learners ns c) r2
-      | 4 => do '(d, r2) <- bread wt l r1 ;
-             do g <- group_unmarshal_into group0 d ;
-             conf_fields f l (set_c_lgroups (c_lgroups c ++ [g]) c) r2
-      | _ => do r2 <- skip_field l rest ; conf_fields f l c r2
-      end
-    end
+Definition conf_step (l : N) (c : confstate) (rest : bytes) : res (confstate * bytes) :=
+  do '(fnum, wt, r1) <- read_tag rest ;
+  match fnum with
+  | 1 => do '(ns, r2) <- nums_read wt l (c_nodes c) r1 ; Ok (set_c_nodes ns c, r2)
+  | 2 => do '(d, r2) <- bread wt l r1 ;
+         do g <- group_unmarshal_into group0 d ;
+         Ok (set_c_groups (c_groups c ++ [g]) c, r2)
+  | 3 => do '(ns, r2) <- nums_read wt l (c_learners c) r1 ; Ok (set_c_learners ns c, r2)
+  | 4 => do '(d, r2) <- bread wt l r1 ;
+         do g <- group_unmarshal_into group0 d ;
+         Ok (set_c_lgroups (c_lgroups c ++ [g]) c, r2)
+  | _ => do r2 <- skip_field l rest ; Ok (c, r2)
   end.
-Definition conf_unmarshal_into (c : confstate) (bs : bytes) : res confstate :=
-  conf_fields (S (length bs)) (len bs) c bs.
+Definition conf_unmarshal_into : confstate -> bytes -> res confstate := unmarshal_with conf_step.
 
 (* SnapshotMetadata.Unmarshal *)
-Fixpoint meta_fields (fuel : nat) (l : N) (s : snapmeta) (rest : bytes) : res snapmeta :=
-  match rest with
-  | [] => Ok s
-  | _ :: _ =>
-    match fuel with
-    | O => Err PFuel
-    | S f =>
-      do '(fnum, wt, r1) <- read_tag rest ;
-      match fnum with
-      | 1 => do '(d, r2) <- bread wt l r1 ;
-             do c <- conf_unmarshal_into (sm_conf s) d ;
-             meta_fields f l (set_sm_conf c s) r2
-      | 2 => do '(v, r2) <- vread wt r1 ; meta_fields f l (set_sm_index v s) r2
-      | 3 => do '(v, r2) <- vread wt r1 ; meta_fields f l (set_sm_term v s) r2
-      | _ => do r2 <- skip_field l rest ; meta_fields f l s r2
-      end
-    end
+Definition meta_step (l : N) (s : snapmeta) (rest : bytes) : res (snapmeta * bytes) :=
+  do '(fnum, wt, r1) <- read_tag rest ;
+  match fnum with
+  | 1 => do '(d, r2) <- bread wt l r1 ;
+         do c <- conf_unmarshal_into (sm_conf s) d ;
+         Ok (set_sm_conf c s, r2)
+  | 2 => do '(v, r2) <- vread wt r1 ; Ok (set_sm_index v s, r2)
+  | 3 => do '(v, r2) <- vread wt r1 ; Ok (set_sm_term v s, r2)
+  | _ => do r2 <- skip_field l rest ; Ok (s, r2)
   end.
-Definition meta_unmarshal_into (s : snapmeta) (bs : bytes) : res snapmeta :=
-  meta_fields (S (length bs)) (len bs) s bs.
+Definition meta_unmarshal_into : snapmeta -> bytes -> res snapmeta := unmarshal_with meta_step.
 
 (* Snapshot.Unmarshal *)
-Fixpoint snap_fields (fuel : nat) (l : N) (s : snapshot) (rest : bytes) : res snapshot :=
-  match rest with
-  | [] => Ok s
-  | _ :: _ =>
-    match fuel with
-    | O => Err PFuel
-    | S f =>
-      do '(fnum, wt, r1) <- read_tag rest ;
-      match fnum with
-      | 1 => do '(d, r2) <- bread wt l r1 ; snap_fields f l (set_s_data (Some d) s) r2
-      | 2 => do '(d, r2) <- bread wt l r1 ;
-             do md <- meta_unmarshal_into (s_meta s) d ;
-             snap_fields f l (set_s_meta md s) r2
-      | _ => do r2 <- skip_field l rest ; snap_fields f l s r2
-      end
-    end
+Definition snap_step (l : N) (s : snapshot) (rest : bytes) : res (snapshot * bytes) :=
+  do '(fnum, wt, r1) <- read_tag rest ;
+  match fnum with
+  | 1 => do '(d, r2) <- bread wt l r1 ; Ok (set_s_data (Some d) s, r2)
+  | 2 => do '(d, r2) <- bread wt l r1 ;
+         do md <- meta_unmarshal_into (s_meta s) d ;
+         Ok (set_s_meta md s, r2)
+  | _ => do r2 <- skip_field l rest ; Ok (s, r2)
   end.
-Definition snap_unmarshal_into (s : snapshot) (bs : bytes) : res snapshot :=
-  snap_fields (S (length bs)) (len bs) s bs.
+Definition snap_unmarshal_into : snapshot -> bytes -> res snapshot := unmarshal_with snap_step.
 
-(* Message.Unmarshal.  Note field 10: `var v int; …; m.Reject = bool(v != 0)`. *)
-Fixpoint msg_fields (fuel : nat) (l : N) (m : message) (rest : bytes) : res message :=
-  match rest with
-  | [] => Ok m
-  | _ :: _ =>
-    match fuel with
-    | O => Err PFuel
-    | S f =>
-      do '(fnum, wt, r1) <- read_tag rest ;
-      match fnum with
-      | 1 => do '(v, r2) <- vread wt r1 ; msg_fields f l (set_m_type (low32 v) m) r2
-      | 2 => do '(v, r2) <- vread wt r1 ; msg_fields f l (set_m_to v m) r2
-      | 3 => do '(v, r2) <- vread wt r1 ; msg_fields f l (set_m_from v m) r2
-      | 4 => do '(v, r2) <- vread wt r1 ; msg_fields f l (set_m_term v m) r2
-      | 5 => do '(v, r2) <- vread wt r1 ; msg_fields f l (set_m_logterm v m) r2
-      | 6 => do '(v, r2) <- vread wt r1 ; msg_fields f l (set_m_index v m) r2
-      | 7 => do '(d, r2) <- bread wt l r1 ;
-             do e <- entry_unmarshal_into entry0 d ;
-             msg_fields f l (set_m_entries (m_entries m ++ [e]) m) r2
-      | 8 => do '(v, r2) <- vread wt r1 ; msg_fields f l (set_m_commit v m) r2
-      | 9 => do '(d, r2) <- bread wt l r1 ;
-             do s <- snap_unmarshal_into (m_snap m) d ;
-             msg_fields f l (set_m_snap s m) r2
-      | 10 => do '(v, r2) <- vread wt r1 ; msg_fields f l (set_m_reject (negb (v =? 0)) m) r2
-      | 11 => do '(v, r2) <- vread wt r1 ; msg_fields f l (set_m_rhint v m) r2
-      | 12 => do '(d, r2) <- bread wt l r1 ; msg_fields f l (set_m_ctx (Some d) m) r2
-      | 13 => do '(d, r2) <- bread wt l r1 ;
-              do g <- group_unmarshal_into (m_fromg m) d ;
-              msg_fields f l (set_m_fromg g m) r2
-      | 14 => do '(d, r2) <- bread wt l r1 ;
-              do g <- group_unmarshal_into (m_tog m) d ;
-              msg_fields f l (set_m_tog g m) r2
-      | _ => do r2 <- skip_field l rest ; msg_fields f l m r2
-      end
-    end
+(* Message.Unmarshal.  Note field 10: `var v int; ...; m.Reject = bool(v != 0)`. *)
+Definition msg_step (l : N) (m : message) (rest : bytes) : res (message * bytes) :=
+  do '(fnum, wt, r1) <- read_tag rest ;
+  match fnum with
+  | 1 => do '(v, r2) <- vread wt r1 ; Ok (set_m_type (low32 v) m, r2)
+  | 2 => do '(v, r2) <- vread wt r1 ; Ok (set_m_to v m, r2)
+  | 3 => do '(v, r2) <- vread wt r1 ; Ok (set_m_from v m, r2)
+  | 4 => do '(v, r2) <- vread wt r1 ; Ok (set_m_term v m, r2)
+  | 5 => do '(v, r2) <- vread wt r1 ; Ok (set_m_logterm v m, r2)
+  | 6 => do '(v, r2) <- vread wt r1 ; Ok (set_m_index v m, r2)
+  | 7 => do '(d, r2) <- bread wt l r1 ;
+         do e <- entry_unmarshal_into entry0 d ;
+         Ok (set_m_entries (m_entries m ++ [e]) m, r2)
+  | 8 => do '(v, r2) <- vread wt r1 ; Ok (set_m_commit v m, r2)
+  | 9 => do '(d, r2) <- bread wt l r1 ;
+         do s <- snap_unmarshal_into (m_snap m) d ;
+         Ok (set_m_snap s m, r2)
+  | 10 => do '(v, r2) <- vread wt r1 ; Ok (set_m_reject (negb (v =? 0)) m, r2)
+  | 11 => do '(v, r2) <- vread wt r1 ; Ok (set_m_rhint v m, r2)
+  | 12 => do '(d, r2) <- bread wt l r1 ; Ok (set_m_ctx (Some d) m, r2)
+  | 13 => do '(d, r2) <- bread wt l r1 ;
+          do g <- group_unmarshal_into (m_fromg m) d ;
+          Ok (set_m_fromg g m, r2)
+  | 14 => do '(d, r2) <- bread wt l r1 ;
+          do g <- group_unmarshal_into (m_tog m) d ;
+          Ok (set_m_tog g m, r2)
+  | _ => do r2 <- skip_field l rest ; Ok (m, r2)
   end.
-Definition msg_unmarshal_into (m : message) (bs : bytes) : res message :=
-  msg_fields (S (length bs)) (len bs) m bs.
+Definition msg_unmarshal_into : message -> bytes -> res message := unmarshal_with msg_step.
 
 Definition msg_unmarshal (bs : bytes) : res message := msg_unmarshal_into msg0 bs.
 Definition entry_unmarshal (bs : bytes) : res entry := entry_unmarshal_into entry0 bs.
+
+(* ---------- value ranges (every field is a value of its Go type), as boolean predicates ---------- *)
+Definition u64 (x : N) : bool := x <? two64.
+Definition u32 (x : N) : bool := x <? two32.
+Definition group_ok (g : group) : bool := u64 (g_node g) && u64 (g_gid g) && u64 (g_rid g).
+Definition entry_ok (e : entry) : bool :=
+  u32 (e_type e) && u64 (e_term e) && u64 (e_index e) && u64 (e_id e) && u32 (e_dtype e) && u64 (e_ts e).
+Definition conf_ok (c : confstate) : bool :=
+  forallb u64 (c_nodes c) && forallb group_ok (c_groups c) && forallb u64 (c_learners c) && forallb group_ok (c_lgroups c).
+Definition snap_ok (s : snapshot) : bool :=
+  conf_ok (sm_conf (s_meta s)) && u64 (sm_index (s_meta s)) && u64 (sm_term (s_meta s)).
+(* every field is a value of its Go type, and the encoding is shorter than 2^63 bytes (Go's int) *)
+Definition msg_ok (m : message) : bool :=
+  u32 (m_type m) && u64 (m_to m) && u64 (m_from m) && u64 (m_term m) && u64 (m_logterm m) && u64 (m_index m) &&
+  forallb entry_ok (m_entries m) && u64 (m_commit m) && snap_ok (m_snap m) && u64 (m_rhint m) &&
+  group_ok (m_fromg m) && group_ok (m_tog m) && (msg_size m <? two63).
+
